@@ -6,8 +6,8 @@ from driver import *
 def main(tier):
     ck = Check('C12', tier, ['timer'])
     k = 6 if tier == 'quick' else 10
-    ck.bounds = {'machine_cycles': k, 'values': 'width-complete (counter multiple of 4, tac, tima, tma, lastEdge, every access kind/value symbolic)'}
-    ck.run([('timer', 'VerifTimerSeq', {'k': k})])
+    ck.bounds = {'inductive': 'one machine cycle (any access, any value) from every pair of states related by the simulation relation between the implementation\'s reload bookkeeping and the reference\'s phase: observables agree and the relation is preserved; established by New(): agreement for schedules of any length', 'machine_cycles': k, 'values': 'width-complete (counter multiple of 4, tac, tima, tma, lastEdge, every access kind/value symbolic)'}
+    ck.run([('timer', 'VerifTimerSeq', {'k': k}), ('timer', 'VerifTimerInd', {}), ('timer', 'VerifTimerInit', {})])
     ck.finish(explanation='k machine cycles (one symbolic CPU access + EndMachineCycle each) of the real timer vs a reference DMG timer, compared at every cycle boundary')
 
 
